@@ -151,3 +151,730 @@ Example disc_checker_rejects :
         (mkDisc [GTopo (AddPeers [mkPeer 5 ROLE_PROVIDER]); GList 1 true [([5], [170])]; GCheck 1]
                 [[]; []; [XCheck 1 true; XDial [170]; XReturn 1 0]] 1 false))).
 Proof. vm_compute. auto. Qed.
+
+(* --- the return-code clause ---------------------------------------------------------------------------
+   The checker's per-handler remaining lists follow the machine's handler lists (minus the head while
+   the handler sits in its select) as long as no list id is used twice. *)
+Definition tracked (k : handler) : list wire_record := if h_offer k then tl (h_rem k) else h_rem k.
+Definition InvA (s : dstate) (G : gst) : Prop :=
+  forall h, g_find h (g_rem G) = match find_h h (d_handlers s) with Some k => tracked k | None => [] end.
+Definition hang := "view:hang"%string.
+Definition nochk (l : list deffect) : Prop :=
+  forallb (fun e => match e with XCheck _ _ => false | _ => true end) l = true.
+
+Lemma g_find_set h h' r l : g_find h' (g_set h r l) = if h =? h' then r else g_find h' l.
+Proof.
+  induction l as [|[d r0] t IH]; cbn [g_set g_find].
+  - destruct (h =? h'); reflexivity.
+  - destruct (N.eqb_spec d h) as [->|Ne]; cbn [g_find].
+    + destruct (h =? h'); reflexivity.
+    + rewrite IH. destruct (N.eqb_spec d h') as [->|Ne2]; [|reflexivity].
+      destruct (N.eqb_spec h h'); [congruence|reflexivity].
+Qed.
+Lemma find_h_set h h' k hs :
+  find_h h' (set_h h k hs) = if h =? h' then match find_h h hs with Some _ => Some k | None => None end else find_h h' hs.
+Proof.
+  induction hs as [|[d k0] t IH]; cbn [set_h find_h].
+  - destruct (h =? h'); reflexivity.
+  - destruct (N.eqb_spec d h) as [->|Ne]; cbn [find_h].
+    + destruct (h =? h'); reflexivity.
+    + rewrite IH. destruct (N.eqb_spec d h') as [->|Ne2]; [|reflexivity].
+      destruct (N.eqb_spec h h'); [congruence|reflexivity].
+Qed.
+
+Lemma g_effects_app a l1 : forall l2 G,
+  g_effects a G (l1 ++ l2) =
+  (fst (g_effects a (fst (g_effects a G l1)) l2), snd (g_effects a G l1) ++ snd (g_effects a (fst (g_effects a G l1)) l2)).
+Proof.
+  induction l1 as [|e r IH]; intros l2 G; cbn [app g_effects].
+  - cbn [fst snd app]. destruct (g_effects a G l2); reflexivity.
+  - destruct (g_effect a G e) as [G1 k1]. rewrite IH.
+    destruct (g_effects a G1 r) as [G2 k2]. cbn [fst snd]. rewrite app_assoc. reflexivity.
+Qed.
+Lemma nochk_app a b : nochk a -> nochk b -> nochk (a ++ b).
+Proof. unfold nochk. intros A B. rewrite forallb_app, A, B. reflexivity. Qed.
+Lemma nochk_filter f l : nochk l -> nochk (filter f l).
+Proof.
+  unfold nochk. induction l as [|e r IH]; [auto|]. cbn [forallb filter]. intros H.
+  apply andb_prop in H as [H1 H2]. destruct (f e); cbn [forallb]; rewrite ?H1, IH; auto.
+Qed.
+Lemma check_first_nochk l : nochk l -> check_first l = l.
+Proof.
+  unfold check_first, nochk. induction l as [|e r IH]; [reflexivity|]. cbn [forallb filter]. intros H.
+  apply andb_prop in H as [H1 H2]. specialize (IH H2).
+  destruct e; try discriminate; cbn [filter].
+  all: assert (Z : filter (fun e => match e with XCheck _ _ => true | _ => false end) r = []);
+    [clear IH; induction r as [|e' r' IH']; [reflexivity|]; cbn [forallb filter] in *; apply andb_prop in H2 as [A B];
+     destruct e'; try discriminate; auto|].
+  all: rewrite Z in *; cbn [app] in *; rewrite IH; reflexivity.
+Qed.
+Lemma check_first_cons h k l : nochk l -> check_first (XCheck h k :: l) = XCheck h k :: l.
+Proof.
+  intros H. pose proof (check_first_nochk l H) as E. unfold check_first in *. cbn [filter].
+  assert (Z : filter (fun e => match e with XCheck _ _ => true | _ => false end) l = []).
+  { unfold nochk in H. clear E. induction l as [|e' r' IH']; [reflexivity|]. cbn [forallb filter] in *.
+    apply andb_prop in H as [A B]. destruct e'; try discriminate; auto. }
+  rewrite Z in *. cbn [app] in *. rewrite E. reflexivity.
+Qed.
+Lemma seen_skips h (l : list wire_record) r : filter seen (map (fun y => XSkip h y r) l) = [].
+Proof. induction l; [reflexivity|]. cbn. assumption. Qed.
+
+(* the effect list of one event, as the driver sees it: at most one IsConnected answer, in front *)
+Definition front (l : list deffect) : Prop := nochk l \/ exists h k r, l = XCheck h k :: r /\ nochk r.
+
+Ltac nohang := cbn; unfold hang; let HH := fresh in intros HH; repeat (destruct HH as [HH|HH]; [discriminate HH|]); exact HH.
+Ltac triv := cbn; repeat split; auto; try (left; reflexivity); try (intros; reflexivity).
+(* one machine event other than a successfully read list *)
+Lemma step_hang cap a s e s' eff G :
+  InvA s G -> dstep cap s e = Ok (s', eff) ->
+  (forall h l, e = DList h false l -> a = GList h false l) ->
+  (forall h l, e <> DList h true l) ->
+  InvA s' (fst (g_effects a G (filter seen eff))) /\ ~ In hang (snd (g_effects a G (filter seen eff)))
+  /\ front (filter seen eff) /\ ((forall h, e <> DCheck h) -> nochk (filter seen eff)).
+Proof.
+  intros I D A1 A2.
+  destruct e as [h ok l|h|h|h|h| |u r|ev]; cbn [dstep] in D.
+  - destruct ok; [exfalso; eapply A2; reflexivity|].
+    destruct (find_h h (d_handlers s)) eqn:F; injection D as <- <-; cbn.
+    + solve [triv].
+    + rewrite (A1 h l eq_refl). rewrite N.eqb_refl. solve [triv].
+  - pose proof (I h) as Ih.
+    destruct (find_h h (d_handlers s)) as [[[|x rest] [|] c]|] eqn:F;
+      try (injection D as <- <-; solve [triv]).
+    unfold tracked in Ih; cbn in Ih.
+    assert (P : forall k rem' G', g_rem G' = g_set h rest (g_rem G) -> tracked (mkH rem' k c) = rest ->
+                 InvA (with_handlers s (set_h h (mkH rem' k c) (d_handlers s))) G').
+    { intros k rem' G' E T h'. rewrite E, g_find_set. cbn [with_handlers d_handlers]. rewrite find_h_set, F.
+      destruct (h =? h'); [symmetry; exact T|apply I]. }
+    destruct (is_connected _ _); injection D as <- <-.
+    + cbn [app filter seen]. change (XCheck h true :: filter seen (ret0 h rest)) with ([XCheck h true] ++ filter seen (ret0 h rest)).
+      rewrite g_effects_app. cbn [g_effects g_effect fst snd]. rewrite Ih. cbn [fst snd].
+      split; [|split; [|split]].
+      * destruct rest; cbn [ret0 filter seen g_effects g_effect fst snd N.eqb].
+        -- cbn. intros h'. cbn. rewrite g_find_set, find_h_set, F. destruct (h =? h'); [reflexivity|apply I].
+        -- intros h'. cbn. rewrite g_find_set, find_h_set, F. destruct (h =? h'); [reflexivity|apply I].
+      * destruct rest; cbn [ret0 filter seen g_effects g_effect fst snd].
+        -- cbn [g_rem]. rewrite g_find_set. rewrite !N.eqb_refl. cbn.
+           destruct (abs_connected _ _); nohang.
+        -- destruct (abs_connected _ _); nohang.
+      * right. exists h, true, (filter seen (ret0 h rest)). split; [reflexivity|]. destruct rest; reflexivity.
+      * intros Hn. exfalso. apply (Hn h). reflexivity.
+    + cbn [filter seen g_effects g_effect fst snd]. rewrite Ih. cbn [fst snd].
+      split; [|split; [|split]].
+      * apply (P true (x :: rest)); reflexivity.
+      * destruct (abs_connected _ _); nohang.
+      * right. exists h, false, []. split; reflexivity.
+      * intros Hn. exfalso. apply (Hn h). reflexivity.
+  - pose proof (I h) as Ih.
+    destruct (find_h h (d_handlers s)) as [[[|x rest] [|] c]|] eqn:F;
+      try (injection D as <- <-; solve [triv]).
+    destruct (d_pending s); injection D as <- <-; try (solve [triv]).
+    unfold tracked in Ih; cbn in Ih.
+    assert (J : InvA (mkD (d_topo s) (set_h h (mkH rest false c) (d_handlers s)) (Some x) (d_flying s) (d_held s)
+                  (d_received s) (d_skipped s) (d_dialled s) (d_finished s)) G).
+    { intros h'. cbn [d_handlers]. rewrite find_h_set, F. destruct (N.eqb_spec h h') as [<-|]; [exact Ih|apply I]. }
+    destruct rest; cbn [ret0 filter seen g_effects g_effect fst snd N.eqb].
+    + rewrite Ih. solve [triv].
+    + solve [triv].
+  - destruct (find_h h (d_handlers s)) as [[rem o c]|] eqn:F; injection D as <- <-; cbn [filter g_effects fst snd].
+    + repeat split; auto; [|left; reflexivity].
+      intros h'. cbn [with_handlers d_handlers]. rewrite find_h_set, F. specialize (I h'). 
+      destruct (N.eqb_spec h h') as [<-|]; [rewrite F in I; exact I|exact I].
+    + solve [triv].
+  - destruct (find_h h (d_handlers s)) as [[[|x rest] [|] [|]]|] eqn:F;
+      try (injection D as <- <-; solve [triv]).
+    injection D as <- <-. cbn [filter seen]. rewrite filter_app, seen_skips. cbn [app filter seen g_effects g_effect fst snd N.eqb].
+    cbn. repeat split; auto; try (left; reflexivity); try (intros; reflexivity).
+    intros h'. cbn. rewrite g_find_set, find_h_set, F. destruct (h =? h'); [reflexivity|apply I].
+  - destruct (d_pending s) as [x|]; [|injection D as <- <-; solve [triv]].
+    destruct (d_held s <? cap); injection D as <- <-; [|solve [triv]].
+    cbn [filter seen g_effects g_effect]. destruct (rm_due (snd x) (g_due G)); cbn [fst snd app].
+    + solve [triv].
+    + repeat split; auto; [|left; reflexivity]. destruct (existsb _ _); nohang.
+  - destruct (flying u s); [|injection D as <- <-; solve [triv]].
+    destruct (d_held s =? 0); [discriminate|]. injection D as <- <-.
+    destruct r as [p|rf]; cbn [filter seen g_effects g_effect fst snd app].
+    + repeat split; auto; [|left; reflexivity].
+      destruct a as [? ? ?|?|?|? [q|?]|?]; try nohang.
+      destruct (negb _); nohang.
+    + solve [triv].
+  - destruct (topo_event ev); injection D as <- <-; solve [triv].
+Qed.
+
+Lemma eager_kind cap s e : eager_event cap s = Some e ->
+  e = DAcquire \/ (exists h, e = DHandoff h) \/ (exists h, e = DGiveUp h).
+Proof.
+  unfold eager_event. intros E. destruct (d_pending s).
+  - destruct (d_held s <? cap); [injection E as <-; auto|].
+    destruct (offering (d_handlers s)) as [[h [|]]|]; try discriminate. injection E as <-. eauto.
+  - destruct (offering (d_handlers s)) as [[h b]|]; try discriminate. injection E as <-. eauto.
+Qed.
+
+Lemma eager_hang cap a : forall fuel s s1 effs G,
+  InvA s G -> drun_from cap s (eager fuel cap s) = Ok (s1, effs) ->
+  InvA s1 (fst (g_effects a G (filter seen (concat effs))))
+  /\ ~ In hang (snd (g_effects a G (filter seen (concat effs))))
+  /\ nochk (filter seen (concat effs))
+  /\ map fst (d_handlers s1) = map fst (d_handlers s).
+Proof.
+  induction fuel as [|n IH]; intros s s1 effs G I; cbn [eager drun_from].
+  - intros [= <- <-]. cbn. repeat split; auto.
+  - destruct (eager_event cap s) as [e|] eqn:E; [|cbn [drun_from]; intros [= <- <-]; cbn; repeat split; auto].
+    pose proof (eager_kind cap s e E) as K.
+    destruct (dstep cap s e) as [[s' eff]| |] eqn:D; cbn [drun_from]; rewrite D; try discriminate.
+    destruct (drun_from cap s' (eager n cap s')) as [[s2 effs2]| |] eqn:R2; try discriminate.
+    intros [= <- <-].
+    assert (KS : map fst (d_handlers s') = map fst (d_handlers s)).
+    { destruct K as [->|[[h ->]|[h ->]]]; cbn [dstep] in D;
+        repeat match type of D with context [match ?x with _ => _ end] => destruct x end;
+        try discriminate; injection D as <- <-; cbn [d_handlers with_handlers]; rewrite ?set_h_ids; reflexivity. }
+    destruct (step_hang cap a s e s' eff G I D) as (I1 & H1 & _ & N1).
+    { intros h l ->. destruct K as [K|[[? K]|[? K]]]; discriminate K. }
+    { intros h l ->. destruct K as [K|[[? K]|[? K]]]; discriminate K. }
+    destruct (IH s' s2 effs2 _ I1 R2) as (I2 & H2 & N2 & K2).
+    cbn [concat]. rewrite filter_app, g_effects_app. cbn [fst snd].
+    split; [exact I2|]. split; [intros HH; apply in_app_or in HH as [HH|HH]; auto|].
+    split; [|congruence]. apply nochk_app; [|exact N2]. apply N1.
+    intros h ->. destruct K as [K|[[? K]|[? K]]]; discriminate K.
+Qed.
+
+Lemma notin_find_none h hs : ~ In h (map fst hs) -> find_h h hs = None.
+Proof.
+  induction hs as [|[d k] t IH]; [reflexivity|]. cbn. intros Hn.
+  destruct (N.eqb_spec d h); [exfalso; auto|auto].
+Qed.
+
+(* the action's own event, after the checker's bookkeeping for the action has begun *)
+Lemma first_hang cap s a s' eff G :
+  InvA s G -> (forall h l, a = GList h true l -> ~ In h (map fst (d_handlers s))) ->
+  dstep cap s (action_event a) = Ok (s', eff) ->
+  InvA s' (fst (g_effects a (g_begin a G) (filter seen eff)))
+  /\ ~ In hang (snd (g_effects a (g_begin a G) (filter seen eff)))
+  /\ front (filter seen eff)
+  /\ (map fst (d_handlers s') = map fst (d_handlers s)
+      \/ exists h l, a = GList h true l /\ map fst (d_handlers s') = h :: map fst (d_handlers s)).
+Proof.
+  intros I Fr D.
+  assert (KS : map fst (d_handlers s') = map fst (d_handlers s)
+      \/ exists h l, a = GList h true l /\ map fst (d_handlers s') = h :: map fst (d_handlers s)).
+  { destruct a as [h [|] l|h|h|u r|ev]; cbn [action_event dstep negb] in D;
+      repeat match type of D with context [match ?x with _ => _ end] => destruct x end;
+      try discriminate; injection D as <- <-; cbn [d_handlers with_handlers]; rewrite ?set_h_ids;
+      first [left; reflexivity | right; eexists; eexists; split; reflexivity]. }
+  destruct a as [h [|] l|h|h|u r|ev].
+  - pose proof (notin_find_none h _ (Fr h l eq_refl)) as F. cbn [action_event dstep] in D. rewrite F in D.
+    cbn [negb] in D. injection D as <- <-. cbn [g_begin].
+    assert (J : InvA (mkD (d_topo s) ((h, mkH l false false) :: d_handlers s) (d_pending s) (d_flying s) (d_held s)
+                  (d_received s ++ l) (d_skipped s) (d_dialled s) (d_finished s))
+                 (mkG (g_set h l (g_rem G)) (g_due G) (g_known G) (g_fly G) (g_abs G))).
+    { intros h'. cbn [g_rem d_handlers find_h]. rewrite g_find_set. destruct (h =? h'); [reflexivity|apply I]. }
+    destruct l; cbn [ret0 filter seen g_effects g_effect fst snd N.eqb].
+    + cbn [g_rem]. rewrite g_find_set, N.eqb_refl. cbn. repeat split; auto. left; reflexivity.
+    + cbn. repeat split; auto. left; reflexivity.
+  - destruct (step_hang cap (GList h false l) s _ s' eff G I D) as (I1 & H1 & F1 & _); cbn [g_begin]; auto.
+    + intros h0 l0 [= -> ->]. reflexivity.
+    + intros h0 l0; discriminate.
+  - destruct (step_hang cap (GCheck h) s _ s' eff G I D) as (I1 & H1 & F1 & _); cbn [g_begin]; auto;
+      intros; discriminate.
+  - destruct (step_hang cap (GCancel h) s _ s' eff G I D) as (I1 & H1 & F1 & _); cbn [g_begin]; auto;
+      intros; discriminate.
+  - destruct (step_hang cap (GDone u r) s _ s' eff G I D) as (I1 & H1 & F1 & _); cbn [g_begin]; auto;
+      intros; discriminate.
+  - assert (I0 : InvA s (g_begin (GTopo ev) G)).
+    { intros h'. cbn [g_begin]. destruct (topo_event ev); apply I. }
+    destruct (step_hang cap (GTopo ev) s _ s' eff _ I0 D) as (I1 & H1 & F1 & _); auto; intros; discriminate.
+Qed.
+
+Lemma InvA_g_end s a G : InvA s G -> InvA s (g_end a G).
+Proof. intros I h. destruct a; apply I. Qed.
+
+(* one whole action of the driver *)
+Lemma action_hang cap s a s1 effs G :
+  InvA s G -> (forall h l, a = GList h true l -> ~ In h (map fst (d_handlers s))) ->
+  drun_from cap s (action_events cap s a) = Ok (s1, effs) ->
+  InvA s1 (g_end a (fst (g_effects a (g_begin a G) (check_first (filter seen (concat effs))))))
+  /\ ~ In hang (snd (g_effects a (g_begin a G) (check_first (filter seen (concat effs)))))
+  /\ (map fst (d_handlers s1) = map fst (d_handlers s)
+      \/ exists h l, a = GList h true l /\ map fst (d_handlers s1) = h :: map fst (d_handlers s)).
+Proof.
+  intros I Fr. unfold action_events.
+  destruct (dstep cap s (action_event a)) as [[s' eff]| |] eqn:D; cbn [drun_from]; rewrite D; try discriminate.
+  destruct (drun_from cap s' (eager 6 cap s')) as [[s2 effs2]| |] eqn:R2; try discriminate.
+  intros [= <- <-].
+  destruct (first_hang cap s a s' eff G I Fr D) as (I1 & H1 & F1 & K1).
+  destruct (eager_hang cap a 6 s' s2 effs2 _ I1 R2) as (I2 & H2 & N2 & K2).
+  cbn [concat]. rewrite filter_app.
+  assert (C : check_first (filter seen eff ++ filter seen (concat effs2)) = filter seen eff ++ filter seen (concat effs2)).
+  { destruct F1 as [N|(h & k & r & -> & N)].
+    - apply check_first_nochk, nochk_app; assumption.
+    - cbn [app]. apply check_first_cons, nochk_app; assumption. }
+  rewrite C, g_effects_app. cbn [fst snd].
+  split; [apply InvA_g_end, I2|]. split; [intros HH; apply in_app_or in HH as [HH|HH]; auto|].
+  rewrite K2. exact K1.
+Qed.
+
+(* ids of the lists that were read *)
+Definition list_ids (acts : list gaction) : list N :=
+  flat_map (fun a => match a with GList h true _ => [h] | _ => [] end) acts.
+
+Lemma grun_hang cap : forall acts s G,
+  InvA s G -> NoDup (list_ids acts) ->
+  (forall h, In h (list_ids acts) -> ~ In h (map fst (d_handlers s))) ->
+  ~ In hang (snd (g_run G acts (fst (fst (grun cap s acts))))).
+Proof.
+  induction acts as [|a r IH]; intros s G I ND Fr; [cbn; auto|].
+  cbn [grun].
+  destruct (drun_from cap s (action_events cap s a)) as [[s1 effs]| |] eqn:E; try (cbn; auto; fail).
+  destruct (action_hang cap s a s1 effs G I) as (I1 & H1 & K1); [|exact E|].
+  { intros h l ->. apply Fr. cbn. auto. }
+  change (list_ids (a :: r)) with ((match a with GList h true _ => [h] | _ => [] end) ++ list_ids r) in *.
+  assert (ND2 : NoDup (list_ids r)).
+  { clear -ND. induction (match a with GList h true _ => [h] | _ => [] end) as [|x t IHt]; [exact ND|].
+    cbn in ND. inversion ND. auto. }
+  assert (Fr2 : forall h, In h (list_ids r) -> ~ In h (map fst (d_handlers s1))).
+  { intros h Hin. destruct K1 as [->|(h0 & l0 & -> & ->)].
+    - apply Fr. apply in_or_app. auto.
+    - cbn. intros [<-|Hc].
+      + cbn in ND. inversion ND. auto.
+      + revert Hc. apply Fr. apply in_or_app. auto. }
+  specialize (IH s1 _ I1 ND2 Fr2).
+  destruct (grun cap s1 r) as [[rest s2] pk]. cbn [fst snd g_run] in *.
+  destruct (g_effects a (g_begin a G) (check_first (filter seen (concat effs)))) as [G1 k1]. cbn [fst snd] in *.
+  destruct (g_run (g_end a G1) r rest) as [G2 k2]. cbn [fst snd] in *.
+  intros HH; apply in_app_or in HH as [HH|HH]; auto.
+Qed.
+
+(* For EVERY driver schedule in which no list id is read twice: the mode-3 checker never reports
+   view:hang from its per-effect bookkeeping on the machine's own run (no IsConnected answer for a
+   handler with nothing left, every return code the expected one). *)
+Theorem disc_checker_hang_accept_model acts :
+  NoDup (list_ids acts) ->
+  match grun pool_width dinit acts with
+  | (effs, _, _) => ~ In "view:hang"%string (snd (g_run (mkG [] [] [] [] abs_init) acts effs))
+  end.
+Proof.
+  intros ND.
+  pose proof (grun_hang pool_width acts dinit (mkG [] [] [] [] abs_init)) as H.
+  destruct (grun pool_width dinit acts) as [[effs s] pk]. cbn [fst] in H. apply H; auto.
+  intros h. reflexivity.
+Qed.
+
+(* not vacuous: a schedule with distinct ids whose run has answers and returns of all three codes; and
+   the premise is needed: when id 1 is read twice the machine ignores the second list, the checker's
+   bookkeeping does not, and the clause fires on the machine's own run *)
+Example disc_checker_hang_run :
+  let acts := [GList 1 true [([5], [170]); ([6], [171])]; GCheck 1; GList 2 false []; GList 3 true [];
+               GDone [170] (DialErr RUnreachable); GCheck 1; GDone [171] (DialOk (mkPeer 6 ROLE_PROVIDER))] in
+  NoDup (list_ids acts)
+  /\ In (XReturn 1 0) (concat (fst (fst (grun pool_width dinit acts))))
+  /\ In (XReturn 2 1) (concat (fst (fst (grun pool_width dinit acts))))
+  /\ snd (g_run (mkG [] [] [] [] abs_init) acts (fst (fst (grun pool_width dinit acts)))) = [].
+Proof. cbn zeta. split; [repeat constructor; cbn; intuition discriminate|]. vm_compute. auto 10. Qed.
+Example disc_checker_hang_premise_needed :
+  let acts := [GList 1 true [([5], [170])]; GList 1 true []; GCheck 1] in
+  ~ NoDup (list_ids acts)
+  /\ In "view:hang"%string (snd (g_run (mkG [] [] [] [] abs_init) acts (fst (fst (grun pool_width dinit acts))))).
+Proof. cbn zeta. split; [intros H; inversion H as [|? ? Hn ?]; apply Hn; cbn; auto|]. vm_compute. auto. Qed.
+
+(* --- the answer part: the per-effect bookkeeping never reports "view" ---------------------------------- *)
+Definition vw := "view"%string.
+Ltac novw := cbn; unfold vw; let HH := fresh in intros HH; repeat (destruct HH as [HH|HH]; [discriminate HH|]); exact HH.
+Lemma g_effect_view a G e : (forall h k, e <> XCheck h k) -> ~ In vw (snd (g_effect a G e)).
+Proof.
+  intros Hn. destruct e as [h k|h x r|u|p|h code]; cbn [g_effect].
+  - exfalso. eapply Hn. reflexivity.
+  - novw.
+  - destruct (rm_due u (g_due G)); [novw|]. destruct (existsb _ _); novw.
+  - destruct a as [? ? ?|?|?|? [q|?]|?]; try novw. destruct (negb _); novw.
+  - cbn [snd]. destruct (negb _); novw.
+Qed.
+Lemma g_effects_view a l : nochk l -> forall G, ~ In vw (snd (g_effects a G l)).
+Proof.
+  unfold nochk. induction l as [|e r IH]; intros N G; [cbn; auto|]. cbn [forallb] in N. apply andb_prop in N as [N1 N2].
+  cbn [g_effects]. pose proof (g_effect_view a G e) as V. destruct (g_effect a G e) as [G1 k1].
+  specialize (IH N2 G1). destruct (g_effects a G1 r) as [G2 k2]. cbn [snd] in *.
+  intros HH; apply in_app_or in HH as [HH|HH]; auto. revert HH. apply V. intros h k ->. discriminate.
+Qed.
+
+(* an IsConnected answer seen during an action is the machine's answer for the head of that handler,
+   which the checker recomputes from its own sets *)
+Lemma first_view cap s a s' eff G h k r :
+  InvA s G -> R (d_topo s) (g_abs G) ->
+  dstep cap s (action_event a) = Ok (s', eff) -> filter seen eff = XCheck h k :: r ->
+  snd (g_effect a (g_begin a G) (XCheck h k)) = [].
+Proof.
+  intros I Rr D E.
+  destruct a as [h0 ok l|h0|h0|u rr|ev]; cbn [action_event dstep] in D.
+  - exfalso. destruct (find_h h0 (d_handlers s)); [injection D as <- <-; discriminate|].
+    destruct (negb ok); injection D as <- <-; [discriminate|]. destruct l; discriminate.
+  - pose proof (I h0) as Ih. cbn [g_begin].
+    destruct (find_h h0 (d_handlers s)) as [[[|x rest] [|] c]|] eqn:F; try (injection D as <- <-; discriminate).
+    unfold tracked in Ih; cbn in Ih.
+    pose proof (connected_agrees (d_topo s) (g_abs G) (addr_of_bytes (fst x)) Rr) as CA.
+    destruct (is_connected (addr_of_bytes (fst x)) (d_topo s)) eqn:K; injection D as <- <-;
+      cbn [app filter seen] in E; injection E as <- <- _; cbn [g_effect]; rewrite Ih; cbn [snd]; rewrite <- CA; reflexivity.
+  - exfalso. destruct (find_h h0 (d_handlers s)) as [[rem o c]|]; injection D as <- <-; discriminate.
+  - exfalso. destruct (flying u s); [|injection D as <- <-; discriminate].
+    destruct (d_held s =? 0); [discriminate|]. injection D as <- <-. destruct rr; discriminate.
+  - exfalso. destruct (topo_event ev); injection D as <- <-; discriminate.
+Qed.
+
+Lemma action_view cap s a s1 effs G :
+  InvA s G -> R (d_topo s) (g_abs G) -> (forall h l, a = GList h true l -> ~ In h (map fst (d_handlers s))) ->
+  drun_from cap s (action_events cap s a) = Ok (s1, effs) ->
+  ~ In vw (snd (g_effects a (g_begin a G) (check_first (filter seen (concat effs))))).
+Proof.
+  intros I Rr Fr. unfold action_events.
+  destruct (dstep cap s (action_event a)) as [[s' eff]| |] eqn:D; cbn [drun_from]; rewrite D; try discriminate.
+  destruct (drun_from cap s' (eager 6 cap s')) as [[s2 effs2]| |] eqn:R2; try discriminate.
+  intros [= <- <-].
+  destruct (first_hang cap s a s' eff G I Fr D) as (I1 & H1 & F1 & K1).
+  destruct (eager_hang cap a 6 s' s2 effs2 _ I1 R2) as (I2 & H2 & N2 & K2).
+  cbn [concat]. rewrite filter_app.
+  destruct F1 as [N|(h & k & r & E & N)].
+  - rewrite check_first_nochk by (apply nochk_app; assumption). apply g_effects_view, nochk_app; assumption.
+  - rewrite E. cbn [app]. rewrite check_first_cons by (apply nochk_app; assumption).
+    cbn [g_effects]. pose proof (first_view cap s a s' eff G h k r I Rr D E) as V.
+    destruct (g_effect a (g_begin a G) (XCheck h k)) as [G1 k1]. cbn [snd] in V. subst k1.
+    pose proof (g_effects_view a (r ++ filter seen (concat effs2)) (nochk_app _ _ N N2) G1) as V2.
+    destruct (g_effects a G1 (r ++ filter seen (concat effs2))) as [G2 k2]. exact V2.
+Qed.
+
+Lemma grun_view cap : forall acts s G,
+  InvA s G -> wf (d_topo s) -> R (d_topo s) (g_abs G) -> NoDup (list_ids acts) ->
+  (forall h, In h (list_ids acts) -> ~ In h (map fst (d_handlers s))) ->
+  ~ In vw (snd (g_run G acts (fst (fst (grun cap s acts))))).
+Proof.
+  induction acts as [|a r IH]; intros s G I W Rr ND Fr; [cbn; auto|].
+  cbn [grun].
+  destruct (drun_from cap s (action_events cap s a)) as [[s1 effs]| |] eqn:E; try (cbn; auto; fail).
+  assert (Fa : forall h l, a = GList h true l -> ~ In h (map fst (d_handlers s))).
+  { intros h l ->. apply Fr. cbn. auto. }
+  destruct (action_hang cap s a s1 effs G I Fa E) as (I1 & H1 & K1).
+  pose proof (action_view cap s a s1 effs G I Rr Fa E) as V1.
+  destruct (action_R cap s a s1 effs G W Rr E) as [W1 R1].
+  change (list_ids (a :: r)) with ((match a with GList h true _ => [h] | _ => [] end) ++ list_ids r) in *.
+  assert (ND2 : NoDup (list_ids r)).
+  { clear -ND. induction (match a with GList h true _ => [h] | _ => [] end) as [|x t IHt]; [exact ND|].
+    cbn in ND. inversion ND. auto. }
+  assert (Fr2 : forall h, In h (list_ids r) -> ~ In h (map fst (d_handlers s1))).
+  { intros h Hin. destruct K1 as [->|(h0 & l0 & -> & ->)].
+    - apply Fr. apply in_or_app. auto.
+    - cbn. intros [<-|Hc].
+      + cbn in ND. inversion ND. auto.
+      + revert Hc. apply Fr. apply in_or_app. auto. }
+  set (l := filter seen (concat effs)) in *.
+  pose proof (g_effects_abs a (check_first l) (g_begin a G)) as GA.
+  destruct (g_effects a (g_begin a G) (check_first l)) as [G1 k1] eqn:GE. cbn [fst snd] in *.
+  assert (R1' : R (d_topo s1) (g_abs (g_end a G1))).
+  { assert (g_abs (g_end a G1) = g_abs G1) as -> by (destruct a; reflexivity).
+    rewrite GA, xadds_check_first. unfold l. rewrite xadds_seen. exact R1. }
+  specialize (IH s1 _ I1 W1 R1' ND2 Fr2).
+  destruct (grun cap s1 r) as [[rest s2] pk]. cbn [fst snd g_run] in *. fold l. rewrite GE.
+  destruct (g_run (g_end a G1) r rest) as [G2 k2]. cbn [fst snd] in *.
+  intros HH; apply in_app_or in HH as [HH|HH]; auto.
+Qed.
+
+(* For EVERY driver schedule in which no list id is read twice: every IsConnected answer of the machine
+   is the answer the checker computes from the schedule's topology events and the AddPeers calls seen
+   -- the per-effect bookkeeping never reports "view" on the machine's own run. *)
+Theorem disc_checker_answers_accept_model acts :
+  NoDup (list_ids acts) ->
+  match grun pool_width dinit acts with
+  | (effs, _, _) => ~ In "view"%string (snd (g_run (mkG [] [] [] [] abs_init) acts effs))
+  end.
+Proof.
+  intros ND.
+  pose proof (grun_view pool_width acts dinit (mkG [] [] [] [] abs_init)) as H.
+  destruct (grun pool_width dinit acts) as [[effs s] pk]. cbn [fst] in H. apply H; auto.
+  - intros h. reflexivity.
+  - apply wf_init.
+  - repeat split.
+Qed.
+
+(* not vacuous: a run with a "known" and an "unknown" answer; a tampered answer is reported *)
+Example disc_checker_answers_run :
+  let acts := [GTopo (AddPeers [mkPeer 5 ROLE_PROVIDER]); GList 1 true [([5], [170]); ([6], [171])]; GCheck 1; GCheck 1] in
+  In (XCheck 1 true) (concat (fst (fst (grun pool_width dinit acts))))
+  /\ In (XCheck 1 false) (concat (fst (fst (grun pool_width dinit acts))))
+  /\ snd (g_run (mkG [] [] [] [] abs_init) acts (fst (fst (grun pool_width dinit acts)))) = []
+  /\ In "view"%string (snd (g_run (mkG [] [] [] [] abs_init) acts [[]; []; [XCheck 1 false]; [XCheck 1 true]])).
+Proof. vm_compute. auto 10. Qed.
+
+(* --- gossip:dialled-known: a Connect call always finds its entry in the checker's due list ------------- *)
+Definition ind (u v : bytes) : nat := if bytes_eqb v u then 1%nat else 0%nat.
+Definition need_h (u : bytes) (k : handler) : nat :=
+  if h_offer k then match h_rem k with x :: _ => ind u (snd x) | [] => 0%nat end else 0%nat.
+Definition need (u : bytes) (s : dstate) : nat :=
+  (wsum (fun x => need_h u (snd x)) (d_handlers s) + match d_pending s with Some x => ind u (snd x) | None => 0 end)%nat.
+Definition have (u : bytes) (due : list wire_record) : nat := wsum (fun x => ind u (snd x)) due.
+Definition InvD (s : dstate) (G : gst) : Prop := forall u, (need u s <= have u (g_due G))%nat.
+Definition dk := "gossip:dialled-known"%string.
+Ltac nodk := cbn; unfold dk; let HH := fresh in intros HH; repeat (destruct HH as [HH|HH]; [discriminate HH|]); exact HH.
+
+Lemma wsum_set (g : handler -> nat) h k k' hs :
+  find_h h hs = Some k ->
+  (wsum (fun x => g (snd x)) (set_h h k' hs) + g k = wsum (fun x => g (snd x)) hs + g k')%nat.
+Proof.
+  induction hs as [|[d k0] r IH]; simpl; [discriminate|].
+  destruct (d =? h) eqn:E; simpl.
+  - intros [= ->]. lia.
+  - intros H. specialize (IH H). lia.
+Qed.
+Lemma rm_due_some u : forall due due', rm_due u due = Some due' -> forall v, have v due = (have v due' + ind v u)%nat.
+Proof.
+  induction due as [|x r IH]; intros due'; cbn [rm_due]; [discriminate|].
+  destruct (bytes_eqb (snd x) u) eqn:E.
+  - intros [= <-] v. apply bytes_eqb_eq in E. subst u. unfold have. cbn [wsum]. lia.
+  - destruct (rm_due u r) as [r'|]; [|discriminate]. intros [= <-] v. specialize (IH _ eq_refl v).
+    unfold have in *. cbn [wsum]. lia.
+Qed.
+Lemma rm_due_none u : forall due, rm_due u due = None -> have u due = 0%nat.
+Proof.
+  induction due as [|x r IH]; cbn [rm_due]; [reflexivity|].
+  destruct (bytes_eqb (snd x) u) eqn:E; [discriminate|]. destruct (rm_due u r); [discriminate|]. intros _.
+  unfold have in *. cbn [wsum]. unfold ind at 1. rewrite E, IH; reflexivity.
+Qed.
+Lemma ind_refl u : ind u u = 1%nat.
+Proof. unfold ind. rewrite bytes_eqb_refl. reflexivity. Qed.
+Lemma have_app u a b : have u (a ++ b) = (have u a + have u b)%nat.
+Proof. apply wsum_app. Qed.
+
+Ltac wsfix WS := match type of WS with (_ + ?a = _ + ?b)%nat =>
+  let a' := eval cbn in a in let b' := eval cbn in b in change a with a' in WS; change b with b' in WS end.
+Lemma step_due cap a s e s' eff G :
+  InvD s G -> (forall h, e = DCheck h -> InvA s G) -> dstep cap s e = Ok (s', eff) ->
+  InvD s' (fst (g_effects a G (filter seen eff)))
+  /\ ((forall h k, e = DCheck h -> In (XCheck h k) eff -> snd (g_effect a G (XCheck h k)) = []) ->
+      ~ In dk (snd (g_effects a G (filter seen eff)))).
+Proof.
+  intros I IA D.
+  destruct e as [h ok l|h|h|h|h| |u r|ev]; cbn [dstep] in D.
+  - destruct (find_h h (d_handlers s)) eqn:F; [injection D as <- <-; cbn; split; [exact I|auto]|].
+    destruct ok; cbn [negb] in D; injection D as <- <-.
+    + assert (E : fst (g_effects a G (filter seen (ret0 h l))) = G /\ ~ In dk (snd (g_effects a G (filter seen (ret0 h l))))).
+      { destruct l; cbn; [|auto]. split; [reflexivity|]. destruct (negb _); nodk. }
+      destruct E as [-> E2]. split; [|auto]. intros u. specialize (I u). unfold need in *. cbn [d_handlers d_pending wsum snd need_h h_offer]. exact I.
+    + cbn [filter seen g_effects g_effect N.eqb fst snd]. split; [exact I|]. intros _. cbn. destruct (negb _); nodk.
+  - pose proof (IA h eq_refl h) as Ih.
+    destruct (find_h h (d_handlers s)) as [[[|x rest] [|] c]|] eqn:F;
+      try (injection D as <- <-; cbn; split; [exact I|auto]).
+    unfold tracked in Ih; cbn in Ih.
+    destruct (is_connected _ _); injection D as <- <-.
+    + cbn [app filter seen]. change (XCheck h true :: filter seen (ret0 h rest)) with ([XCheck h true] ++ filter seen (ret0 h rest)).
+      rewrite g_effects_app. cbn [g_effects g_effect fst snd]. rewrite Ih. cbn [fst snd].
+      split.
+      * assert (E : g_due (fst (g_effects a (mkG (g_set h rest (g_rem G)) (g_due G) (x :: g_known G) (g_fly G) (g_abs G))
+                     (filter seen (ret0 h rest)))) = g_due G).
+        { destruct rest; cbn; reflexivity. }
+        intros u. rewrite E. specialize (I u). unfold need in *. cbn [d_handlers d_pending].
+        pose proof (wsum_set (need_h u) h _ (mkH rest false c) _ F) as WS; wsfix WS. lia.
+      * intros V. specialize (V h true eq_refl (or_introl eq_refl)). cbn [g_effect] in V. rewrite Ih in V. cbn [snd] in V.
+        rewrite V. cbn [app]. destruct rest; cbn [ret0 filter seen g_effects g_effect fst snd]; [|cbn; auto].
+        destruct (is_nil _); nodk.
+    + cbn [filter seen g_effects g_effect fst snd]. rewrite Ih. cbn [fst snd g_due].
+      split.
+      * intros u. specialize (I u). unfold need in *. cbn [with_handlers d_handlers d_pending g_due]. rewrite have_app.
+        pose proof (wsum_set (need_h u) h _ (mkH (x :: rest) true c) _ F) as WS; wsfix WS.
+        unfold have at 2. cbn [wsum]. lia.
+      * intros V. specialize (V h false eq_refl (or_introl eq_refl)). cbn [g_effect] in V. rewrite Ih in V. cbn [snd] in V.
+        rewrite V. cbn; auto.
+  - destruct (find_h h (d_handlers s)) as [[[|x rest] [|] c]|] eqn:F;
+      try (injection D as <- <-; cbn; split; [exact I|auto]).
+    destruct (d_pending s) eqn:P; injection D as <- <-; try (cbn; split; [exact I|auto]).
+    assert (E : fst (g_effects a G (filter seen (ret0 h rest))) = G /\ ~ In dk (snd (g_effects a G (filter seen (ret0 h rest))))).
+    { destruct rest; cbn; [|auto]. split; [reflexivity|]. destruct (negb _); nodk. }
+    destruct E as [-> E2]. split; [|auto]. intros u. specialize (I u). unfold need in *. rewrite P in I. cbn [d_handlers d_pending].
+    pose proof (wsum_set (need_h u) h _ (mkH rest false c) _ F) as WS; wsfix WS. lia.
+  - destruct (find_h h (d_handlers s)) as [[rem o c]|] eqn:F; injection D as <- <-; cbn [filter g_effects fst snd];
+      (split; [|auto]); [|exact I].
+    intros u. specialize (I u). unfold need in *. cbn [with_handlers d_handlers d_pending].
+    pose proof (wsum_set (need_h u) h _ (mkH rem o true) _ F) as WS.
+    assert (need_h u (mkH rem o c) = need_h u (mkH rem o true)) by reflexivity. lia.
+  - destruct (find_h h (d_handlers s)) as [[[|x rest] [|] [|]]|] eqn:F;
+      try (injection D as <- <-; cbn; split; [exact I|auto]).
+    injection D as <- <-. cbn [filter seen]. rewrite filter_app, seen_skips.
+    cbn [app filter seen g_effects g_effect fst snd N.eqb]. split; [|intros _; nodk].
+    intros u. specialize (I u). unfold need in *. cbn [d_handlers d_pending g_due].
+    pose proof (wsum_set (need_h u) h _ (mkH [] false true) _ F) as WS; wsfix WS. cbn [Pos.eqb g_due]. lia.
+  - destruct (d_pending s) as [x|] eqn:P; [|injection D as <- <-; cbn; split; [exact I|auto]].
+    destruct (d_held s <? cap); injection D as <- <-; [|cbn; split; [exact I|auto]].
+    cbn [filter seen g_effects g_effect].
+    destruct (rm_due (snd x) (g_due G)) as [due'|] eqn:RD; cbn [fst snd app].
+    + split; [|auto]. intros u. specialize (I u). unfold need in *. rewrite P in I. cbn [d_handlers d_pending g_due].
+      rewrite (rm_due_some _ _ _ RD u) in I. lia.
+    + exfalso. specialize (I (snd x)). unfold need in I. rewrite P, ind_refl, (rm_due_none _ _ RD) in I. lia.
+  - destruct (flying u s); [|injection D as <- <-; cbn; split; [exact I|auto]].
+    destruct (d_held s =? 0); [discriminate|]. injection D as <- <-.
+    destruct r as [p|rf]; cbn [filter seen g_effects g_effect fst snd app]; (split; [exact I|intros _]); [|cbn; auto].
+    destruct a as [? ? ?|?|?|? [q|?]|?]; try nodk. destruct (negb _); nodk.
+  - destruct (topo_event ev); injection D as <- <-; cbn; split; auto; exact I.
+Qed.
+
+Lemma eager_due cap a : forall fuel s s1 effs G,
+  InvD s G -> drun_from cap s (eager fuel cap s) = Ok (s1, effs) ->
+  InvD s1 (fst (g_effects a G (filter seen (concat effs))))
+  /\ ~ In dk (snd (g_effects a G (filter seen (concat effs)))).
+Proof.
+  induction fuel as [|n IH]; intros s s1 effs G I; cbn [eager drun_from].
+  - intros [= <- <-]. cbn. split; auto.
+  - destruct (eager_event cap s) as [e|] eqn:E; [|cbn [drun_from]; intros [= <- <-]; cbn; split; auto].
+    pose proof (eager_kind cap s e E) as K.
+    destruct (dstep cap s e) as [[s' eff]| |] eqn:D; cbn [drun_from]; rewrite D; try discriminate.
+    destruct (drun_from cap s' (eager n cap s')) as [[s2 effs2]| |] eqn:R2; try discriminate.
+    intros [= <- <-].
+    destruct (step_due cap a s e s' eff G I) as (I1 & H1); [|exact D|].
+    { intros h ->. destruct K as [K|[[? K]|[? K]]]; discriminate K. }
+    destruct (IH s' s2 effs2 _ I1 R2) as (I2 & H2).
+    cbn [concat]. rewrite filter_app, g_effects_app. cbn [fst snd]. split; [exact I2|].
+    intros HH; apply in_app_or in HH as [HH|HH]; auto. revert HH. apply H1.
+    intros h k ->. destruct K as [K|[[? K]|[? K]]]; discriminate K.
+Qed.
+Lemma InvD_begin s a G : InvD s G -> InvD s (g_begin a G).
+Proof. intros I u. destruct a as [? [|] ?|?|?|? ?|ev]; cbn [g_begin]; try apply I. destruct (topo_event ev); apply I. Qed.
+Lemma InvD_end s a G : InvD s G -> InvD s (g_end a G).
+Proof. intros I u. destruct a; apply I. Qed.
+Lemma nochk_notin l h k : nochk l -> ~ In (XCheck h k) l.
+Proof. unfold nochk. intros N Hin. rewrite forallb_forall in N. specialize (N _ Hin). discriminate. Qed.
+
+Lemma action_due cap s a s1 effs G :
+  InvA s G -> InvD s G -> R (d_topo s) (g_abs G) ->
+  (forall h l, a = GList h true l -> ~ In h (map fst (d_handlers s))) ->
+  drun_from cap s (action_events cap s a) = Ok (s1, effs) ->
+  InvD s1 (g_end a (fst (g_effects a (g_begin a G) (check_first (filter seen (concat effs))))))
+  /\ ~ In dk (snd (g_effects a (g_begin a G) (check_first (filter seen (concat effs))))).
+Proof.
+  intros I ID Rr Fr. unfold action_events.
+  destruct (dstep cap s (action_event a)) as [[s' eff]| |] eqn:D; cbn [drun_from]; rewrite D; try discriminate.
+  destruct (drun_from cap s' (eager 6 cap s')) as [[s2 effs2]| |] eqn:R2; try discriminate.
+  intros [= <- <-].
+  destruct (first_hang cap s a s' eff G I Fr D) as (I1 & H1 & F1 & K1).
+  destruct (eager_hang cap a 6 s' s2 effs2 _ I1 R2) as (I2 & H2 & N2 & K2).
+  destruct (step_due cap a s (action_event a) s' eff (g_begin a G) (InvD_begin _ _ _ ID)) as (D1 & V1); [|exact D|].
+  { intros h E. destruct a; try discriminate E. cbn [g_begin]. exact I. }
+  destruct (eager_due cap a 6 s' s2 effs2 _ D1 R2) as (D2 & V2).
+  cbn [concat]. rewrite filter_app.
+  assert (C : check_first (filter seen eff ++ filter seen (concat effs2)) = filter seen eff ++ filter seen (concat effs2)).
+  { destruct F1 as [N|(h & k & r & -> & N)].
+    - apply check_first_nochk, nochk_app; assumption.
+    - cbn [app]. apply check_first_cons, nochk_app; assumption. }
+  rewrite C, g_effects_app. cbn [fst snd].
+  split; [apply InvD_end, D2|]. intros HH; apply in_app_or in HH as [HH|HH]; [|auto]. revert HH. apply V1.
+  intros h k _ Hin.
+  assert (Hin2 : In (XCheck h k) (filter seen eff)) by (apply filter_In; split; [exact Hin|reflexivity]).
+  destruct F1 as [N|(h' & k' & r & E & N)].
+  - exfalso. exact (nochk_notin _ _ _ N Hin2).
+  - rewrite E in Hin2. destruct Hin2 as [[= <- <-]|Hr]; [|exfalso; exact (nochk_notin _ _ _ N Hr)].
+    exact (first_view cap s a s' eff G h' k' r I Rr D E).
+Qed.
+
+Lemma grun_dk cap : forall acts s G,
+  InvA s G -> InvD s G -> wf (d_topo s) -> R (d_topo s) (g_abs G) -> NoDup (list_ids acts) ->
+  (forall h, In h (list_ids acts) -> ~ In h (map fst (d_handlers s))) ->
+  ~ In dk (snd (g_run G acts (fst (fst (grun cap s acts))))).
+Proof.
+  induction acts as [|a r IH]; intros s G I ID W Rr ND Fr; [cbn; auto|].
+  cbn [grun].
+  destruct (drun_from cap s (action_events cap s a)) as [[s1 effs]| |] eqn:E; try (cbn; auto; fail).
+  assert (Fa : forall h l, a = GList h true l -> ~ In h (map fst (d_handlers s))).
+  { intros h l ->. apply Fr. cbn. auto. }
+  destruct (action_hang cap s a s1 effs G I Fa E) as (I1 & H1 & K1).
+  destruct (action_due cap s a s1 effs G I ID Rr Fa E) as (D1 & V1).
+  destruct (action_R cap s a s1 effs G W Rr E) as [W1 R1].
+  change (list_ids (a :: r)) with ((match a with GList h true _ => [h] | _ => [] end) ++ list_ids r) in *.
+  assert (ND2 : NoDup (list_ids r)).
+  { clear -ND. induction (match a with GList h true _ => [h] | _ => [] end) as [|x t IHt]; [exact ND|].
+    cbn in ND. inversion ND. auto. }
+  assert (Fr2 : forall h, In h (list_ids r) -> ~ In h (map fst (d_handlers s1))).
+  { intros h Hin. destruct K1 as [->|(h0 & l0 & -> & ->)].
+    - apply Fr. apply in_or_app. auto.
+    - cbn. intros [<-|Hc].
+      + cbn in ND. inversion ND. auto.
+      + revert Hc. apply Fr. apply in_or_app. auto. }
+  set (l := filter seen (concat effs)) in *.
+  pose proof (g_effects_abs a (check_first l) (g_begin a G)) as GA.
+  destruct (g_effects a (g_begin a G) (check_first l)) as [G1 k1] eqn:GE. cbn [fst snd] in *.
+  assert (R1' : R (d_topo s1) (g_abs (g_end a G1))).
+  { assert (g_abs (g_end a G1) = g_abs G1) as -> by (destruct a; reflexivity).
+    rewrite GA, xadds_check_first. unfold l. rewrite xadds_seen. exact R1. }
+  specialize (IH s1 _ I1 D1 W1 R1' ND2 Fr2).
+  destruct (grun cap s1 r) as [[rest s2] pk]. cbn [fst snd g_run] in *. fold l. rewrite GE.
+  destruct (g_run (g_end a G1) r rest) as [G2 k2]. cbn [fst snd] in *.
+  intros HH; apply in_app_or in HH as [HH|HH]; auto.
+Qed.
+
+(* For EVERY driver schedule in which no list id is read twice: the clause gossip:dialled-known is
+   silent on the machine's own run -- no "unknown" answer for an address the checker's sets hold, and
+   every Connect call takes an entry of the due list (an entry answered "unknown" and not yet dialled). *)
+Theorem disc_checker_dialled_known_accept_model acts :
+  NoDup (list_ids acts) ->
+  match grun pool_width dinit acts with
+  | (effs, _, _) => ~ In "gossip:dialled-known"%string (snd (g_run (mkG [] [] [] [] abs_init) acts effs))
+  end.
+Proof.
+  intros ND.
+  pose proof (grun_dk pool_width acts dinit (mkG [] [] [] [] abs_init)) as H.
+  destruct (grun pool_width dinit acts) as [[effs s] pk]. cbn [fst] in H. apply H; auto.
+  - intros h. reflexivity.
+  - intros u. cbn. auto.
+  - apply wf_init.
+  - repeat split.
+Qed.
+
+(* not vacuous: a run with two Connect calls and a skipped known entry is accepted; disc_checker_rejects
+   above shows the clause firing when a Connect call for the skipped entry is put into the observation *)
+Example disc_checker_dialled_known_run :
+  let acts := [GTopo (AddPeers [mkPeer 5 ROLE_PROVIDER]); GList 1 true [([5], [170]); ([6], [171]); ([7], [172])];
+               GCheck 1; GCheck 1; GCheck 1] in
+  xdials (concat (fst (fst (grun pool_width dinit acts)))) = [[171]; [172]]
+  /\ snd (g_run (mkG [] [] [] [] abs_init) acts (fst (fst (grun pool_width dinit acts)))) = [].
+Proof. vm_compute. auto. Qed.
+
+(* --- summary: what the per-effect bookkeeping can still say on the machine's own run ------------------- *)
+Definition up := "gossip:unproven"%string.
+Ltac strs str := cbn; let HH := fresh in intros HH;
+  repeat (destruct HH as [HH|HH]; [subst str; unfold dk, up, vw, hang; auto 6|]); contradiction.
+Lemma g_effect_strings a G e str :
+  In str (snd (g_effect a G e)) -> str = dk \/ str = up \/ str = vw \/ str = hang.
+Proof.
+  destruct e as [h k|h x r|u|p|h code]; cbn [g_effect].
+  - destruct (g_find h (g_rem G)); [strs str|]. destruct k, (abs_connected _ _); strs str.
+  - strs str.
+  - destruct (rm_due u (g_due G)); [strs str|]. destruct (existsb _ _); strs str.
+  - destruct a as [? ? ?|?|?|? [q|?]|?]; try strs str. destruct (negb _); strs str.
+  - cbn [snd]. destruct (negb _); strs str.
+Qed.
+Lemma g_effects_strings a str : forall l G,
+  In str (snd (g_effects a G l)) -> str = dk \/ str = up \/ str = vw \/ str = hang.
+Proof.
+  induction l as [|e r IH]; intros G; cbn [g_effects]; [cbn; contradiction|].
+  pose proof (g_effect_strings a G e str) as V. destruct (g_effect a G e) as [G1 k1].
+  specialize (IH G1). destruct (g_effects a G1 r) as [G2 k2]. cbn [snd] in *.
+  intros HH; apply in_app_or in HH as [HH|HH]; auto.
+Qed.
+Lemma g_run_strings str : forall acts effs G,
+  In str (snd (g_run G acts effs)) -> str = dk \/ str = up \/ str = vw \/ str = hang.
+Proof.
+  induction acts as [|a r IH]; intros effs G; [cbn; contradiction|].
+  destruct effs as [|l lr]; [cbn; contradiction|]. cbn [g_run].
+  pose proof (g_effects_strings a str (check_first l) (g_begin a G)) as V.
+  destruct (g_effects a (g_begin a G) (check_first l)) as [G1 k1].
+  specialize (IH lr (g_end a G1)). destruct (g_run (g_end a G1) r lr) as [G2 k2]. cbn [snd] in *.
+  intros HH; apply in_app_or in HH as [HH|HH]; auto.
+Qed.
+
+(* For EVERY driver schedule in which no list id is read twice, the only thing the per-effect
+   bookkeeping of the mode-3 checker can report on the machine's own run is gossip:unproven. *)
+Theorem disc_checker_only_unproven acts :
+  NoDup (list_ids acts) ->
+  match grun pool_width dinit acts with
+  | (effs, _, _) => forall str, In str (snd (g_run (mkG [] [] [] [] abs_init) acts effs)) -> str = "gossip:unproven"%string
+  end.
+Proof.
+  intros ND.
+  pose proof (disc_checker_hang_accept_model acts ND) as A.
+  pose proof (disc_checker_answers_accept_model acts ND) as B.
+  pose proof (disc_checker_dialled_known_accept_model acts ND) as C.
+  destruct (grun pool_width dinit acts) as [[effs s] pk]. intros str Hin.
+  destruct (g_run_strings str _ _ _ Hin) as [-> | [-> | [-> | -> ]]]; [exfalso; exact (C Hin)|reflexivity|exfalso; exact (B Hin)|exfalso; exact (A Hin)].
+Qed.
